@@ -51,7 +51,7 @@ def run(ctx):
         parts.append(("forms2x2", cfg(2, 2, REP, '{"*", "+"}', "{1, 2}"), None, None))  # two special operands, k<=2
         parts.append(("lits3", cfg(3, 1, REP + ' \\cup {"-", "%", "<"}', SUB, lits='{"-1", "-2", "2", "1", "0"}', nest="{1, 2}"), None, None))
         parts.append(("sim", cfg(8, 0, ALL, '{"*"}', lits='{"-1", "2"}'), "num=1200", 9))
-        parts.append(("simforms", cfg(5, 3, ALL, SUB, "{1, 2}"), "num=150", 6))
+        parts.append(("simforms", cfg(5, 3, ALL, SUB, "{1, 2}"), "num=60", 6))
     for name, text, sim, depth in parts:
         cf, r = gen(ctx, text, name, simulate=sim, depth=depth)
         if sim:
